@@ -46,12 +46,15 @@ type Engine struct {
 
 	needStrConcat, needBitFns, needDyn, needErr, needStrCmp, needSubstr, needStrOfBytes, needMapLen bool
 	havocAllSeen bool
+	needStrExt bool
+	preds map[string]*predDef
+	predDecls []string
 	overlay map[string][]byte
 }
 
 func newEngine(repoDir string) *Engine {
 	return &Engine{repoDir: repoDir, pkgs: map[string]*packages.Package{}, contracts: newContractSet(), sc: newSortCtx(),
-		strs: map[string]string{}, globals: map[string]*types.Var{}, gaddrs: map[string]bool{}, funcRefs: map[string]bool{}, dynTags: map[string]bool{}, dynVals: map[string]string{}, funcLits: map[string]*ast.FuncLit{}, ufuns: map[string]*UFun{}, mapLenKeys: map[string]string{}, mutatedGlobals: map[types.Object]bool{}, assignedGlobals: map[types.Object]bool{}}
+		strs: map[string]string{}, globals: map[string]*types.Var{}, gaddrs: map[string]bool{}, funcRefs: map[string]bool{}, dynTags: map[string]bool{}, dynVals: map[string]string{}, funcLits: map[string]*ast.FuncLit{}, ufuns: map[string]*UFun{}, mapLenKeys: map[string]string{}, mutatedGlobals: map[types.Object]bool{}, assignedGlobals: map[types.Object]bool{}, preds: map[string]*predDef{}}
 }
 
 func writeExpr(w io.Writer, fset *token.FileSet, e ast.Node) {
@@ -268,7 +271,7 @@ func (eng *Engine) verifyFunc(p *packages.Package, key string) (*FuncVerifier, e
 	}
 	fv.scanBoxed(fd.Body)
 	sig := fo.Type().(*types.Signature)
-	st := &State{vars: map[types.Object]string{}, ghost: map[string]Val{}, heaps: map[string]string{}, pc: "true", locks: map[string]string{}}
+	st := &State{vars: map[types.Object]string{}, ghost: map[string]Val{}, heaps: map[string]string{}, pc: "true", locks: map[string]string{}, anc: map[int]bool{0: true}}
 	fv.entry = &State{vars: map[types.Object]string{}, ghost: map[string]Val{}, heaps: map[string]string{}, pc: "true", locks: map[string]string{}}
 	fv.alloc0 = fv.fresh("alloc0", "Int")
 	fv.assumeGlobal("(> " + fv.alloc0 + " 0)")
@@ -451,6 +454,14 @@ func (fv *FuncVerifier) ownEnvAt(st *State, errs *[]string, pos token.Pos) *spec
 		}
 		return fv.readVar(env.st, o), true
 	}
+	env.addrOf = func(name string) (string, bool) {
+		o := lookupObj(name)
+		if o == nil || !fv.boxed[o] {
+			return "", false
+		}
+		t, ok := env.st.vars[o]
+		return t, ok
+	}
 	env.resolveOld = func(name string) (Val, bool) {
 		o := lookupObj(name)
 		if o == nil {
@@ -499,6 +510,15 @@ func (fv *FuncVerifier) checkPost(st *State, final []Val, at ast.Node) {
 	}
 	var errs []string
 	env := fv.ownEnvAt(st, &errs, fv.specPos)
+	// in postconditions parameter names denote the entry values (parameters are mutable locals in Go)
+	cur := env.resolve
+	env.resolve = func(name string) (Val, bool) {
+		if v, ok := env.resolveOld(name); ok {
+			v.St = nil
+			return v, true
+		}
+		return cur(name)
+	}
 	for i, v := range final {
 		env.vars[fmt.Sprintf("result%d", i)] = v
 		if i == 0 {
